@@ -97,9 +97,11 @@ def cli_equivalent_make_kw(mkw, seq=False):
     """What the CLI passes to make()/make_sequence() for the flags of make_argv(mkw): the CLI always
     passes micro (default False; None if a Micro version is named without --micro)."""
     kw = dict(mkw)
-    if not seq and 'micro' not in kw:
+    if not seq:
         v = str(kw.get('version', '')).upper()
-        kw['micro'] = None if v in ('M1', 'M2', 'M3', 'M4') else False
+        if kw.get('micro') is not True:
+            # cli.parse: without --micro a named Micro version turns micro into None (even with --no-micro)
+            kw['micro'] = None if v in ('M1', 'M2', 'M3', 'M4') else False
     return kw
 
 
